@@ -573,20 +573,60 @@ _ALPHABET = frozenset(all_event_names())
 # ---------------------------------------------------------------------------
 # class-dictionary state of the public loaders
 # ---------------------------------------------------------------------------
+# The objects `import periodictable` leaves in the class dictionaries under the lazy names (the
+# delayed-load placeholders), recorded by identity in the pristine interpreter (pristine_import:
+# the parent of every fork, and the start of every fresh interpreter) before any event ran.  An
+# attribute is 'pending' exactly while the class dictionary still holds that very object: a loader
+# deletes or replaces it.  Nothing inside the placeholder (type of its accessors, closure or
+# function names) is looked at, so any implementation of core.delayed_load is recognised.
+_PLACEHOLDERS = {}          # (class name, attribute name) -> object (kept alive: identities stay unique)
+_placeholders_recorded = [False]
+
+
+def record_placeholders(force=False):
+    if _placeholders_recorded[0] and not force:
+        return _PLACEHOLDERS
+    from periodictable import core
+    _PLACEHOLDERS.clear()
+    for g in LAZY:
+        for cname, a in LAZY_CLASS_ATTRS[g]:
+            v = vars(getattr(core, cname)).get(a, _PLACEHOLDERS)      # _PLACEHOLDERS: a private 'absent' marker
+            if v is not _PLACEHOLDERS and hasattr(type(v), '__get__'):
+                _PLACEHOLDERS[(cname, a)] = v
+    _placeholders_recorded[0] = True
+    return _PLACEHOLDERS
+
+
 def _attr_kind(cls, name):
-    v = vars(cls).get(name, '<absent>')
-    if isinstance(v, str) and v == '<absent>':
+    d = vars(cls)
+    if name not in d:
         return 'absent'
-    if isinstance(v, property):
-        return 'pending' if getattr(v.fget, '__name__', '') == 'getfn' else 'prop'
+    v = d[name]
+    ph = _PLACEHOLDERS.get((cls.__name__, name))
+    if ph is not None and v is ph:
+        return 'pending'
+    if isinstance(v, property) or (hasattr(type(v), '__get__') and hasattr(type(v), '__set__')):
+        return 'prop'
     return 'data'
 
 
 def loader_state():
     """{group: tuple of kinds of its class attributes} for the lazy groups."""
     from periodictable import core
+    record_placeholders()
     classes = {'Element': core.Element, 'Isotope': core.Isotope, 'Ion': core.Ion}
     return {g: tuple(_attr_kind(classes[c], a) for c, a in LAZY_CLASS_ATTRS[g]) for g in LAZY}
+
+
+def pristine_snapshot():
+    """What 'the interpreter every history is forked from is still pristine' is compared with: taken
+    right after the import, compared again at the end of the run (public observations only: the loader
+    state above, the names in elements.properties and the registry of tables when the library has one)."""
+    import periodictable
+    from periodictable import core
+    reg = getattr(core, 'PRIVATE_TABLES', None)
+    return {'loader_state': loader_state(), 'properties': list(periodictable.elements.properties),
+            'tables': len(reg) if hasattr(reg, '__len__') else None}
 
 
 def pending_groups(state=None):
@@ -621,14 +661,45 @@ def belongs_to(table, a):
             base = a.element
             if not belongs_to(table, base):
                 return False
-            return base.ion.ionset.get(a.charge) is a
+            return _ion_of(base, a.charge) is a
         if isinstance(a, core.Isotope):
-            return table[a.element.number]._isotopes.get(a.isotope) is a and table[a.element.number] is a.element
+            return _isotope_of(table[a.element.number], a.isotope) is a and table[a.element.number] is a.element
         if isinstance(a, core.Element):
             return table[a.number] is a
     except Exception:
         return False
     return False
+
+
+def _isotope_of(el, number):
+    """The isotope object `el` serves for mass number `number`, or None.  Private fast path (the isotope
+    map), public route otherwise (Element.__getitem__ raises KeyError for an unknown isotope)."""
+    m = getattr(el, '_isotopes', None)
+    if isinstance(m, dict):
+        return m.get(number)
+    try:
+        return el[number]
+    except KeyError:
+        return None
+
+
+def _ion_of(base, charge):
+    """The ion object `base` serves for `charge`, or None.  Private fast path (the map of ions created so
+    far, which creates nothing), public route otherwise (base.ion[charge], which creates the ion when it
+    does not exist yet: the created object then is not the one asked about)."""
+    m = getattr(getattr(base, 'ion', None), 'ionset', None)
+    if isinstance(m, dict):
+        return m.get(charge)
+    try:
+        return base.ion[charge]
+    except (ValueError, KeyError):
+        return None
+
+
+def _created_ions(atom_):
+    """(charge, ion) of the ions created so far; none when the library does not expose that map."""
+    m = getattr(getattr(atom_, 'ion', None), 'ionset', None)
+    return sorted(m.items()) if isinstance(m, dict) else []
 
 
 def formula_atoms(f):
@@ -650,11 +721,11 @@ def table_atoms(table):
     """(entry label, atom) for every element, isotope and already created ion."""
     for e in table:
         yield e.symbol, e
-        for q, ion in sorted(e.ion.ionset.items()):
+        for q, ion in _created_ions(e):
             yield '%s{%d}' % (e.symbol, q), ion
         for iso in e:
             yield '%s[%d]' % (e.symbol, iso.isotope), iso
-            for q, ion in sorted(iso.ion.ionset.items()):
+            for q, ion in _created_ions(iso):
                 yield '%s[%d]{%d}' % (e.symbol, iso.isotope, q), ion
 
 
@@ -968,11 +1039,22 @@ class Env(object):
             # the record caches the number density of T's own element at init time
             tb = self.tables[T]
             self.counts['derived_value_checks'] += 1
-            got, want = safe(lambda: tb.Fe.neutron._number_density), safe(lambda: tb.Fe.number_density)
-            if got != want:
+            want = safe(lambda: tb.Fe.number_density)
+            if hasattr(tb.Fe.neutron, '_number_density'):
+                # private field of the record (optional instrumentation: exact comparison)
+                got, field = safe(lambda: tb.Fe.neutron._number_density), '_number_density'
+                ok = got == want
+            else:
+                # public route: real sld of a wavelength-independent scatterer = N b_c (documented in
+                # nsf.neutron_scattering): N [1/cm^3] * 1e-24 * b_c [fm] * 10 in 1e-6/A^2
+                self.counts['derived_value_checks.public_route'] += 1
+                field = 'sld()[0] / (10 b_c 1e-24)'
+                got = safe(lambda: tb.Fe.neutron.sld(wavelength=1.8)[0] / (10. * tb.Fe.neutron.b_c * 1e-24))
+                ok = (isinstance(got, float) and isinstance(want, float) and abs(got - want) <= 1e-9 * abs(want))
+            if not ok:
                 self.violation('private-derived', 'b', T, 'neutron',
-                               '%s.Fe.neutron._number_density = %s right after nsf.init(%s), %s.Fe.number_density = %s'
-                               % (T, short(got, 40), T, T, short(want, 40)),
+                               '%s.Fe.neutron.%s = %s right after nsf.init(%s), %s.Fe.number_density = %s'
+                               % (T, field, short(got, 40), T, T, short(want, 40)),
                                symptom='derived-differs', entries=[('Fe', '_number_density', got, want)], item='derived')
         if any(q in self.mutated[T] for q in set(INIT_PREREQ.get(g, ())) | set(DIGEST_PREREQ.get(g, ()))):
             self.mutated[T].add(g)      # derived from mutated prerequisites: not comparable
@@ -1363,6 +1445,7 @@ def pristine_import():
     import numpy  # noqa
     import pyparsing  # noqa
     import periodictable
+    record_placeholders()
     return os.path.realpath(periodictable.__file__)
 
 
